@@ -18,6 +18,7 @@
 #define IORA_SV_FIND_H
 
 size_t GF;                       /* ghost witness index of the first-occurrence clauses (unconstrained) */
+size_t GL;                       /* second unconstrained ghost position for units that need two independent terms */
 #ifndef IORA_FIND_TERM_1
 #define IORA_FIND_TERM_1 GF
 #endif
